@@ -50,7 +50,7 @@ NAMES = {
 }
 DEP_ONLY = {NPM: [b"only-dep", b"A", b"Zed"], MAVEN: [b"g:only"], PYPI: [b"only-dep"]}
 # tags whose substring and exact readings agree (the difference is F-C12-2, decided by C12)
-TAGSETS = [b"latest", b"next", b"latest,next", b"beta", b"next,latest", b"", b"beta,canary"]
+TAGSETS = [b"latest", b"next", b"latest,next", b"beta", b"next,latest", b"", b"beta,canary", b"latest-2,latest", b"notlatest,latest", b"latest-2"]
 DEP_TYPES = [[], [], [], [[cc.D_DEV, b""]], [[cc.D_OPT, b""]], [[cc.D_KNOWNAS, b"alias"]], [[cc.D_KNOWNAS, b"Alias"]],
              [[cc.D_DEV, b""], [cc.D_KNOWNAS, b"b"]], [[cc.D_SCOPE, b"test"]], [[cc.D_DEV, b""], [cc.D_OPT, b""]],
              [[cc.D_KNOWNAS, b"a"]], [[cc.D_TEST, b""]]]
